@@ -31,11 +31,13 @@ Fixpoint check_pairs (k : Z) (ws : list Z) (agree accept : bool) : bool * bool :
   | w :: ws' =>
     let ofs := Z.shiftr k 6 in let nbits := Z.land k 63 + 1 in
     let enc := Z.land w 65535 in let dofs := Z.land (Z.shiftr w 16) 65535 in
-    let dnb := Z.shiftr w 32 in
-    let a := (encodeOfsNbits ofs nbits =? enc) && (decodeOfs k =? dofs) && (decodeNbits k =? dnb) in
+    let dnb := Z.land (Z.shiftr w 32) 255 in
+    let se := Z.shiftr w 40 in      (* the same range described by first and last bit *)
+    let a := (encodeOfsNbits ofs nbits =? enc) && (decodeOfs k =? dofs) && (decodeNbits k =? dnb)
+             && (ToOfsBits (NewNXRange ofs (ofs + nbits - 1)) =? se) in
     (* oracle: the word is ofs*64 + nbits-1, and the decoders invert it: word k is the
        encoding of (k>>6, (k&63)+1) *)
-    let c := (spec_ofsnbits ofs nbits =? enc) && (enc =? k) && (dofs =? ofs) && (dnb =? nbits) in
+    let c := (spec_ofsnbits ofs nbits =? enc) && (enc =? k) && (dofs =? ofs) && (dnb =? nbits) && (se =? k) in
     check_pairs (k + 1) ws' (agree && a) (accept && c)
   end.
 
